@@ -201,6 +201,12 @@ def run(ctx):
             ctx.same(key, p.ret, (sym('a0.r') + sym('a0.g') + sym('a0.b')) / C(3), 'alg=: average_rgb = (r+g+b)/3', w)
         elif k == 'avgi':
             ctx.same(key, p.ret, fn('idiv', sym('a0.r') + sym('a0.g') + sym('a0.b'), C(3)), 'alg=: integer average_rgb = (r+g+b) div 3 (one truncating division of the sum)', w)
+            # on the raw term: the dividend is r + g + b and nothing else (a sum that takes alpha in and out again is the same polynomial and
+            # overflows the component type for every opaque colour)
+            from .c02 import fold_leaves
+            tid = p.d['ret'].get('t') if isinstance(p.d.get('ret'), dict) else None
+            names = fold_leaves(rs.sem, tid, 'Add::add', True)
+            ctx.ob(key + '/sum-of-rgb-only', names == ['a0.r', 'a0.g', 'a0.b'], 'shape: the dividend of the integer average is the sum r + g + b of the three colour components only (intermediate results stay within 3 * max)', w, ['a0.r', 'a0.g', 'a0.b'], names)
         elif k == 'resize':
             a, b = m['a'], m['b']
             Mx = msyms('a0', m['l'], a)
